@@ -28,7 +28,40 @@ class C02(ProgProp):
                 if pats:
                     yield {"k": "asm", "v": v, "items": pats[0], "patch": patch}
 
+    def strata(self, ctx):
+        from hypothesis import strategies as st
+        from vf.gen import prog as gp
+        from vf.pool import HOSTS
+        out = super().strata(ctx)
+        for h in HOSTS:
+            out.append(["host:" + h, st.integers(2, 4).flatmap(lambda n, h=h: gp.programs(h, size=n, bulk=False)).map(
+                lambda src, h=h: {"k": "host", "host": h, "src": src}), 2])
+        return out
+
+    def judge_host(self, case, ctx):
+        from vf.pool import HOSTS
+        from vf.run import Result
+        res = Result()
+        h = case.get("host")
+        if h not in HOSTS or not isinstance(case.get("src"), str):
+            res.reject = "malformed-case"
+            return res
+        r = ctx.pool.host(h).call("x_stream_host", src=case["src"])
+        if "reject" in r:
+            res.reject = "compiler-rejects:" + r["reject"].split(":")[0]
+            return res
+        for sig, msg in r["fails"]:
+            res.fail("C02|host|%s|%s" % (h, sig), "host %s: %s" % (h, msg))
+        res.evals = max(1, r["codes"])
+        res.classes = ["source:host-native", "host:" + h]
+        res.nontrivial = True
+        res.key = [h, case["src"]]
+        res.sample = {"host": h, "kind": "native code objects on the host, with and without current_offset", "source_head": case["src"][:200]}
+        return res
+
     def judge(self, case, ctx):
+        if case.get("k") == "host":
+            return self.judge_host(case, ctx)
         res = super().judge(case, ctx)
         if case.get("k") == "asm" and isinstance(case.get("patch"), int) and not res.reject and not res.failures:
             from vf import refworker as rw
